@@ -468,6 +468,7 @@ def _gen_tokcfg(rng):
     lex, syn, kw, spans = [], [], [], []
     prod = {}
     lexinfo = {}
+    free = []        # final names of the classes whose lexemes may contain any character
 
     def add(name, lexeme, value=None, eol=False, group=None, span=False):
         assert group is not None
@@ -551,6 +552,7 @@ def _gen_tokcfg(rng):
             syn.append(["SQ", "STRING"])
             sn = "STRING"
         lex += [["DQ", "quoted", '"'], ["SQ", "quoted", "'"]]
+        free += [dn, sn]
         dkw = {}
         if rng.random() < 0.5:
             kw.append([dn, "x y", "XY"])
@@ -588,6 +590,7 @@ def _gen_tokcfg(rng):
         if rng.random() < 0.4:
             syn.append(["REST", "TEXT"])
             rn = "TEXT"
+        free.append(rn)
         rkw = {}
         if rng.random() < 0.3:
             kw.append([rn, marker + "on", "ON"])
@@ -613,6 +616,7 @@ def _gen_tokcfg(rng):
             v = marker + _odd_core(rng, True)
             add(cn, v + _odd_trail(rng), v, eol=True, group=cg)
         comment_names.append(cn)
+        free.append(cn)
     if rng.random() < 0.6:
         lex.append(["CML", "lit", "/*"])
         spans.append(["CML", "*/"])
@@ -625,7 +629,8 @@ def _gen_tokcfg(rng):
             decoys.append([mn, "/*if*/", "if", False])
         # (lexeme, value): the value is the body; the text of a line after the opener and of whole lines inside is taken
         # from the rstripped lines, blank parts are dropped
-        for lx, v in (("/* c */", " c "), ("/**/", ""), ("/*c\nd*/", "c\nd"), ("/*\nq */", "q "), ("/*if*/", "if")):
+        for lx, v in (("/* c */", " c "), ("/**/", ""), ("/*c\nd*/", "c\nd"), ("/*\nq */", "q "), ("/*if*/", "if"),
+                      ("/* a\n  b \n c */", " a\n  b\n c "), ("/*  x\n\n\ty\n*/", "  x\n\ty\n")):
             add(mn, lx, v, group="CML", span=True)
         # bodies with characters that are line ends for str.splitlines only: they stay in the value, the lines of the body
         # are the pieces between newlines (each rstripped, the last one cut at the closer and not stripped)
@@ -635,6 +640,7 @@ def _gen_tokcfg(rng):
             lx = "/*" + "".join(q + _odd_trail(rng) + "\n" for q in parts[:-1]) + parts[-1] + last + "*/"
             add(mn, lx, "\n".join(parts) + last, group="CML", span=True)
         comment_names.append(mn)
+        free += [mn, mn]
     rng.shuffle(lex)
     cfg = {"lex": lex, "spans": spans, "syn": syn, "kw": kw, "skip": None}
     terms = _cfg_terminals(cfg)
@@ -663,7 +669,7 @@ def _gen_tokcfg(rng):
         skip = list(default) + ([rng.choice(renamed)] if renamed else [])   # a pattern group name that is no token name: GrammarError
     cfg["skip"] = skip
     info = {"prod": prod, "space": space, "space_group": space_group, "comments": comment_names, "skipset": _cfg_skipset(cfg),
-            "decoys": decoys, "lexinfo": lexinfo,
+            "decoys": decoys, "lexinfo": lexinfo, "free": free,
             "bases": {"lower": (ln, lower_kw), "upper": (un, upper_kw), "num": (nn, num_kw)}}
     # the generator's by-construction names agree with the documented naming rule
     for n, entries in prod.items():
@@ -843,6 +849,13 @@ def _tok_grammar(rng, info):
         pool = list(dict.fromkeys(pref)) + rest
     else:
         pool = rest + list(dict.fromkeys(pref))
+    # half of the grammars: one or two of the free-text classes (strings, rest-of-line, comments that are not skipped)
+    # among the first terminals, so that their tokens are leaves of trees
+    fr = [n for n in info.get("free", []) if n in avail]
+    if fr and rng.random() < 0.5:
+        rng.shuffle(fr)
+        front = list(dict.fromkeys(fr))[:rng.randint(1, 2)]
+        pool = front + [n for n in pool if n not in front]
     letters = list(g["terms"])
     m = {t: pool[i % len(pool)] for i, t in enumerate(letters)}
     g = dict(g)
